@@ -1,6 +1,7 @@
 import Driver.Common
 import DnsVerif.Model.Serve
 import DnsVerif.Spec.Answer
+import DnsVerif.Model.Stats
 
 /-! Driver for the `serve` op: compile the data file with the model codec for each storage
 configuration, answer every query with the model handler, render canonically. Address groups are
@@ -354,6 +355,71 @@ def locOp (ls cs : String) (impl : Option String) : Out :=
     | _, _ => "-"
   { model := "#".intercalate outs, spec := verdict }
 
+
+/-! ### C19 (second half): counters and the query log around the query path, cache enabled -/
+
+structure CacheEnt where
+  key : String
+  body : String        -- rendered response without the OPT field
+
+def sortedJoin (xs : List String) : String := ",".intercalate (sortStrs xs)
+
+/-- `servestats`: queries served in sequence by one handler (CDB, cache on, WRSTimeout 0) -/
+def serveStatsOp (ls qs : String) (impl : Option String) : String :=
+  let lines := (ls.splitOn ";").filterMap Bytes.ofHex
+  let queries := (qs.splitOn ";").filterMap parseQ
+  let b : Backend := .cdb false
+  match compile b noSvcb lines with
+  | none => "cdb:compile-error"
+  | some store =>
+    let implRs : List String :=
+      match impl with
+      | some i => ((i.drop 4).toString).splitOn "~"
+      | none => []
+    let fx (q : QTok) (cls : Stats.LocClass) (p : Stats.Path) : String :=
+      let e := Stats.effects q.qtype false true cls p
+      sortedJoin (e.counters.map Stats.Counter.name) ++ s!"@log={e.logCalls},failed={e.logFailedCalls},match=1"
+    let step (acc : List (CacheEnt × Nat × Bool × Bool) × List String) (qi : QTok × Nat) :
+        List (CacheEnt × Nat × Bool × Bool) × List String :=
+      let (cache, outs) := acc
+      let (q, i) := qi
+      let implR := ((implRs.getD i "").splitOn "@").headD ""
+      let qnameOut := packText q.nameText
+      let qname := Name.toLower qnameOut
+      if q.opt ∧ q.version ≠ 0 then
+        let r := s!"rc=16,aa=0,id=ok,q=same,an=[],ns=[],ar=[]," ++ renderOpt q none true
+        (cache, outs ++ [r ++ "@" ++ fx q .empty .badvers])
+      else
+      match findLocationTop b store qname q.ecs q.resolver with
+      | .err | .panic => (cache, outs ++ ["noreply(rc=2)@" ++ fx q .empty .locationError])
+      | .ok (scope, loc) =>
+        let cls := Stats.locClass loc.mask loc.locID
+        let key := s!"{Bytes.hex loc.locID}/{q.qtype}/{q.qclass}/{Bytes.hex qname}"
+        match cache.find? (·.1.key = key) with
+        | some (e, rcode, aa, ae) =>
+          -- cache hit: the stored response with the current request's OPT
+          (cache, outs ++ [e.body ++ "," ++ renderOpt q scope false ++ "@" ++ fx q cls (.cacheHit rcode aa ae)])
+        | none =>
+          let v : View := { backend := b, store := store, loc := loc.locID }
+          match serve v { qname := qname, qnameOut := qnameOut, qtype := q.qtype, qclass := q.qclass,
+                          maxAns := if q.maxAns = 0 then 1 else q.maxAns } with
+          | .panic => (cache, outs ++ ["panic@@"])
+          | .noReply => (cache, outs ++ ["noreply(rc=2)@" ++ fx q cls .noReply])
+          | .failedReply =>
+            (cache, outs ++ ["rc=2,aa=0,id=ok,q=same,an=[],ns=[],ar=[],none@" ++ fx q cls .handleFailed])
+          | .reply r =>
+            let (ian, _, iar) := implSections implR
+            let aa := if r.aa then 1 else 0
+            let body := s!"rc={r.rcode},aa={aa},id=ok,q=same,an={renderSection r.answer r.answerAddrs ian},"
+              ++ s!"ns={renderSection r.ns [] []},ar={renderSection [] r.extra iar}"
+            let answerEmpty : Bool := r.answer.isEmpty ∧ ¬ (r.answerAddrs.any fun g => g.cands.any fun c => c.weight > 0)
+            let weighted : Bool := (r.answerAddrs.any fun g => g.cands.length > 1) ∨
+              (r.extra.any fun g => g.cands.length > 1)
+            let cache' := if r.rcode ≠ 5 ∧ ¬ weighted then cache ++ [({ key := key, body := body }, r.rcode, r.aa, answerEmpty)] else cache
+            (cache', outs ++ [body ++ "," ++ renderOpt q scope false ++ "@" ++ fx q cls (.reply r.rcode r.aa answerEmpty)])
+    let (_, outs) := queries.zipIdx.foldl step ([], [])
+    "cdb:" ++ "~".intercalate outs
+
 def handle (st : St) (op : String) (args : List String) (impl : Option String) :
     Option (St × Out) :=
   match op, args with
@@ -378,6 +444,8 @@ def handle (st : St) (op : String) (args : List String) (impl : Option String) :
     some (st, { model := "A{" ++ ma ++ "}B{" ++ mb ++ "}", spec := v })
   | "loc", [ls, cs] =>
     some (st, locOp ls cs impl)
+  | "servestats", [ls, qs] =>
+    some (st, { model := serveStatsOp ls qs impl })
   | _, _ => none
 
 end Driver.Serve
